@@ -55,6 +55,7 @@ package httpgen
 // Callees of the request pipeline (their own contracts are further below or still to be strengthened).
 // Error path (C10): the hook table of the documented ErrorHandler contract.
 //@ emitted func writeErrorWithHandler(w nethttp.ResponseWriter, r *nethttp.Request, err error, handler ErrorHandler)
+//@   modifies *
 //@   requires !isNil(err)
 //@   ensures hook_once: handler != nil ==> count("handler") == old(count("handler")) + 1
 //@   ensures no_hook: handler == nil ==> count("handler") == old(count("handler"))
@@ -78,6 +79,7 @@ package httpgen
 
 // Response writers (C10): body codec and Content-Type follow the request's content type by one table.
 //@ emitted func writeProtoMessageResponse(w nethttp.ResponseWriter, r *nethttp.Request, msg proto.Message, statusCode int, fallbackMsg string)
+//@   modifies *
 //@   let ct = filterFlags(ite(r.Header.Get("Content-Type") == "", "application/json", r.Header.Get("Content-Type")))
 //@   ensures one_encoder: (count("protojson.Marshal") - old(count("protojson.Marshal"))) + (count("proto.Marshal") - old(count("proto.Marshal"))) == 1
 //@   ensures status_once: (count("WriteHeader") - old(count("WriteHeader"))) + (count("Error") - old(count("Error"))) == 1
@@ -90,6 +92,7 @@ package httpgen
 //@   at-call Write requires after_header: count("WriteHeader") > old(count("WriteHeader"))
 
 //@ emitted func writeResponseBody(w nethttp.ResponseWriter, r *nethttp.Request, msg proto.Message)
+//@   modifies *
 //@   let ct = filterFlags(ite(r.Header.Get("Content-Type") == "", "application/json", r.Header.Get("Content-Type")))
 //@   ensures no_status: count("WriteHeader") == old(count("WriteHeader"))
 //@   at-call proto.Marshal requires binary_types: ct == "application/octet-stream" || ct == "application/x-protobuf"
@@ -97,6 +100,7 @@ package httpgen
 //@   at-call Set:Content-Type requires matches_codec: arg1 == ite(ct == "application/octet-stream" || ct == "application/x-protobuf", "application/x-protobuf", "application/json")
 
 //@ emitted func marshalResponse(r *nethttp.Request, response any) (b []byte, err error)
+//@   modifies *
 //@   let ct = filterFlags(ite(r.Header.Get("Content-Type") == "", "application/json", r.Header.Get("Content-Type")))
 //@   at-call proto.Marshal requires binary_types: ct == "application/octet-stream" || ct == "application/x-protobuf"
 //@   at-call protojson.Marshal requires json_otherwise: ct != "application/octet-stream" && ct != "application/x-protobuf"
@@ -119,6 +123,7 @@ package httpgen
 //@ emitted func bindPathParams(r *nethttp.Request, msg proto.Message, params []PathParamConfig) (verr *sebufhttp.ValidationError)
 //@ emitted func bindQueryParams(r *nethttp.Request, msg proto.Message, params []QueryParamConfig) (verr *sebufhttp.ValidationError)
 //@ emitted func bindDataBasedOnContentType(r *nethttp.Request, toBind any) (err error)
+//@   modifies *
 //@   ensures one_decoder: (count("bindDataFromJSONRequest") - old(count("bindDataFromJSONRequest"))) + (count("bindDataFromBinaryRequest") - old(count("bindDataFromBinaryRequest"))) == 1
 //@   ensures decoder_verdict: (count("bindDataFromJSONRequest") > old(count("bindDataFromJSONRequest")) ==> (isNil(err) <==> lastErrNil("bindDataFromJSONRequest"))) && (count("bindDataFromBinaryRequest") > old(count("bindDataFromBinaryRequest")) ==> (isNil(err) <==> lastErrNil("bindDataFromBinaryRequest")))
 //@   at-call bindDataFromBinaryRequest requires binary_types_only: filterFlags(r.Header.Get("Content-Type")) == "application/octet-stream" || filterFlags(r.Header.Get("Content-Type")) == "application/x-protobuf"
@@ -161,6 +166,7 @@ package httpgen
 
 // Body decoding (C11): a request is only reported as decoded when a decoder accepted the whole body.
 //@ emitted func bindDataFromJSONRequest(r *nethttp.Request, toBind any) (err error)
+//@   modifies *
 //@   ensures read_once: count("ReadAll") == old(count("ReadAll")) + 1
 //@   ensures decoded: err == nil ==> len(lastRetAs("ReadAll", []byte)) == 0 || (count("UnmarshalJSON") == old(count("UnmarshalJSON")) + 1 && lastErrNil("UnmarshalJSON")) || (count("protojson.Unmarshal") == old(count("protojson.Unmarshal")) + 1 && lastErrNil("protojson.Unmarshal"))
 //@   at-call UnmarshalJSON requires whole_body: arg0 == lastRetAs("ReadAll", []byte)
@@ -168,6 +174,7 @@ package httpgen
 //@   at-call protojson.Unmarshal requires no_custom_decoder: count("UnmarshalJSON") == old(count("UnmarshalJSON"))
 
 //@ emitted func bindDataFromBinaryRequest(r *nethttp.Request, toBind any) (err error)
+//@   modifies *
 //@   ensures read_once: count("ReadAll") == old(count("ReadAll")) + 1
 //@   ensures decoded: err == nil ==> len(lastRetAs("ReadAll", []byte)) == 0 || (count("proto.Unmarshal") == old(count("proto.Unmarshal")) + 1 && lastErrNil("proto.Unmarshal"))
 //@   at-call proto.Unmarshal requires whole_body: arg0 == lastRetAs("ReadAll", []byte)
